@@ -239,10 +239,39 @@ def rule_init(ctx):
               "TABLE:initialised-by-init", "TABLE.get_or_init(ZTable::init) is what the key functions use", bad_what="the key functions do not initialise TABLE with ZTable::init")
 
 
-RULES = [("components", rule_components), ("dependence", rule_dependence), ("injective", rule_injective), ("init", rule_init)]
+
+def rule_key_identity(ctx):
+    """"Different keys" is what the cache and the repetition record see only if comparing and hashing a key look at the whole
+    word: `ZKey == ZKey` compares the two u64 (the derive, or a manual impl that does the same) and `Hash` feeds the hasher
+    that very word."""
+    ix = ctx.ix
+    eqb = ctx.body("<board::zkey::ZKey as std::cmp::PartialEq>::eq")
+    r = mir.strip_copies(ctx.sym(eqb).local(0))
+
+    def word(e, who):
+        e = mir.strip_copies(e)
+        return e[0] == "field" and e[2:] == ("0",) and mir.strip_copies(e[1]) in (("deref", ("arg", who)), ("arg", who))
+    a, o = eqb.local_name(1), eqb.local_name(2)
+    ok = r[0] == "bin" and r[1] == "Eq" and ((word(r[2], a) and word(r[3], o)) or (word(r[2], o) and word(r[3], a))) and not list(eqb.calls())
+    ctx.check(ok, "ZKey:eq-compares-the-whole-word", "ZKey == ZKey is `self.0 == other.0`", eqb.where(0),
+              bad_what="ZKey equality is `%s`: two different keys can compare equal, so the repetition record and the position cache confuse the positions they stand for" % expr_str(r)[:100])
+    ne = ix.bodies.get("<board::zkey::ZKey as std::cmp::PartialEq>::ne")
+    ctx.check(ne is None, "ZKey:ne-is-not-eq", "`!=` is the provided negation of `==`", eqb.where(0), bad_what="ZKey defines its own `ne`; cannot decide that it is !eq")
+    hb = ctx.body("<board::zkey::ZKey as std::hash::Hash>::hash")
+    hs = ctx.sym(hb)
+    writes = [(bi, t) for bi, t in hb.calls()]
+    okh = len(writes) == 1 and (writes[0][1].get("callee") or "").endswith("Hasher::write_u64") and word(hs.operand(writes[0][1]["args"][1]), hb.local_name(1))
+    if not okh and len(writes) == 1 and (writes[0][1].get("callee") or "").endswith("Hash for u64>::hash"):
+        # the derive: `self.0.hash(state)`
+        okh = word(mir.strip_refs(hs.operand(writes[0][1]["args"][0])), hb.local_name(1))
+    ctx.check(okh, "ZKey:hash-feeds-the-whole-word", "Hash for ZKey writes self.0 (one write_u64) to the hasher", hb.where(0),
+              bad_what="ZKey's Hash does not feed exactly its u64 to the hasher (%s)" % [C.short(t.get("callee") or "?") for _b, t in writes])
+
+
+RULES = [("key-identity", rule_key_identity), ("components", rule_components), ("dependence", rule_dependence), ("injective", rule_injective), ("init", rule_init)]
 # two different positions can only be told apart by their keys if the key the board carries IS the key of its position:
 # the incremental-update pairing rules of C04 are decided here too (a stale or stray word makes distinct positions share a key)
-RULES += engine.premise_rules("c04", ["writers", "piece-pair", "turn-pair", "ep-pair", "castle-pair", "castle-revert", "ctor"])
+RULES += engine.premise_rules("c04", ["clone", "writers", "piece-pair", "turn-pair", "ep-pair", "castle-pair", "castle-revert", "ctor"])
 # the colour index of a piece word is usize(Kind::get_color(piece))
 RULES += engine.premise_rules("c01", ["leaf-accessors"])
 
